@@ -1,7 +1,13 @@
 package mon
 
 import (
+	"encoding/json"
+	"math"
+	"math/big"
+
 	"verif/harness/internal/run"
+
+	"github.com/itchyny/gojq"
 )
 
 // c03.fromjson: a text is well-typed for fromjson iff it is exactly one JSON value with nothing but white space around
@@ -44,3 +50,108 @@ var kC03FromJSON = run.NewKind("c03.fromjson", func(c *run.Ctx, t c03FromJSON) *
 	c.Nontrivial("valid\x00" + t.Text)
 	return nil
 })
+
+// c03.company: what a builtin returns does not depend on which other calls the same program makes (the regular
+// expression functions share a table per compiled program): `[A, B]` must be `[A alone, B alone]`, in both orders.
+
+type c03Company struct{ A, B, Subject string }
+
+var kC03Company = run.NewKind("c03.company", func(c *run.Ctx, t c03Company) *run.Fail {
+	one := func(src string) ([]any, bool) {
+		res := run.Compile(src)
+		if res.Code == nil {
+			return nil, false
+		}
+		tr := run.RunCode(res.Code, t.Subject, nil, 100000, 0)
+		if tr.End != run.EndOK || len(tr.Vals) != 1 {
+			return nil, false
+		}
+		vs, ok := tr.Vals[0].([]any)
+		return vs, ok
+	}
+	wrap := func(x string) string { return "(try (" + x + ") catch \"ERR\")" }
+	a, ok1 := one("[" + wrap(t.A) + "]")
+	b, ok2 := one("[" + wrap(t.B) + "]")
+	ab, ok3 := one("[" + wrap(t.A) + ", " + wrap(t.B) + "]")
+	ba, ok4 := one("[" + wrap(t.B) + ", " + wrap(t.A) + "]")
+	if !ok1 || !ok2 || !ok3 || !ok4 {
+		return run.Failf("bad case %v", t)
+	}
+	join := func(x, y []any) string { return run.Canon(append(append([]any{}, x...), y...)) }
+	if run.Canon(ab) != join(a, b) {
+		return run.Failf("on %q: [%s, %s] gives %s, but alone they give %s and %s", t.Subject, t.A, t.B, run.Canon(ab), run.Canon(a), run.Canon(b))
+	}
+	if run.Canon(ba) != join(b, a) {
+		return run.Failf("on %q: [%s, %s] gives %s, but alone they give %s and %s", t.Subject, t.B, t.A, run.Canon(ba), run.Canon(b), run.Canon(a))
+	}
+	c.Nontrivial(t.A + "\x00" + t.B + "\x00" + t.Subject)
+	return nil
+})
+
+func c03CompanyCases() []c03Company {
+	calls := func(re, flags string) []string {
+		f := ""
+		if flags != "" {
+			f = "; " + flags
+		}
+		q := `"` + re + `"`
+		return []string{"test(" + q + f + ")", "[match(" + q + f + ").offset]", "sub(" + q + "; \"_\"" + f + ")", "gsub(" + q + "; \"-\"" + f + ")", "[scan(" + q + f + ")]", "[splits(" + q + f + ")]", "capture(\"(?<k>" + re + ")\"" + f + ")"}
+	}
+	var out []c03Company
+	pairs := [][4]string{{"x", `"i"`, "xi", ""}, {"a", `"i"`, "ia", ""}, {"x", `"g"`, "gx", ""}, {"x", `"g"`, "xg", `""`}, {"x", `"gi"`, "gix", ""}, {"a", `"z"`, "za", ""}, {"a", `"z"`, "az", ""}, {"i", "", "", `"i"`}, {"x", `"x"`, "xx", "null"}, {"n", `"n"`, "nn", ""}, {"x", "null", "x", `""`}, {"x", `"ig"`, "x", `"gi"`}}
+	for _, p := range pairs {
+		ca, cb := calls(p[0], p[1]), calls(p[2], p[3])
+		for i := range ca {
+			for j := range cb {
+				if (i+j)%2 == 0 || i == j {
+					out = append(out, c03Company{A: ca[i], B: cb[j], Subject: "hi XI xi AIa gx Gx xx nn zA"})
+				}
+			}
+		}
+	}
+	return out
+}
+
+// c03.hugeindex: positions at and beyond the machine word (2^63 as a double is the first double that is no int64,
+// -2^63 the last that is) saturate: they lie behind the end, or before the start, of every array and string.
+
+type c03Huge struct {
+	X  run.TV
+	In run.TV
+}
+
+var kC03Huge = run.NewKind("c03.hugeindex", func(c *run.Ctx, t c03Huge) *run.Fail {
+	res := run.Compile(`. as $in | $x | [($in | .[$x:]), ($in | .[:$x]), ($in | .[-$x:]), ($in | .[:-$x]), ($in | .[$x]), ($in | .[-$x]), ($in | getpath([$x])), ($in | if type == "array" then del(.[$x:]) else . end), ($in | if type == "array" then del(.[:-$x]) else . end), ($in | [(.[$x:], .[-$x:]) | length]), ($in | if type == "array" then (try (.[$x:$x] = []) catch "E") else . end)]`, gojq.WithVariables([]string{"$x"}))
+	if res.Code == nil {
+		return run.Failf("does not compile: %v", res.Err)
+	}
+	tr := run.RunCode(res.Code, t.In.V, []any{t.X.V}, 100000, 0)
+	if tr.End != run.EndOK || len(tr.Vals) != 1 {
+		return run.Failf("huge position %s on %s: %s", run.Canon(t.X.V), run.Canon(t.In.V), run.TraceDesc(tr))
+	}
+	whole, empty, n := t.In.V, any([]any{}), 0
+	switch v := t.In.V.(type) {
+	case string:
+		empty, n = "", len([]rune(v))
+	case []any:
+		n = len(v)
+	}
+	want := []any{empty, whole, whole, empty, nil, nil, nil, whole, whole, []any{0, n}, whole}
+	if run.Canon(tr.Vals[0]) != run.Canon(want) {
+		return run.Failf("with $x = %s on %s: [.[$x:], .[:$x], .[-$x:], .[:-$x], .[$x], .[-$x], getpath([$x]), del(.[$x:]), del(.[:-$x]), lengths, .[$x:$x] = empty] gives %s, a position behind every end gives %s", run.Canon(t.X.V), run.Canon(t.In.V), run.Canon(tr.Vals[0]), run.Canon(want))
+	}
+	c.Nontrivial(run.Canon(t.X.V) + run.Canon(t.In.V))
+	return nil
+})
+
+func c03HugeCases() []c03Huge {
+	var out []c03Huge
+	b63, _ := new(big.Int).SetString("9223372036854775808", 10)
+	b70, _ := new(big.Int).SetString("1180591620717411303424", 10)
+	for _, x := range []any{9223372036854775808.0, 18446744073709551616.0, 1e19, 1e300, math.Inf(1), b63, b70, json.Number("9223372036854775808"), json.Number("9223372036854775808.0"), json.Number("1e19"), json.Number("1e1000"), math.MaxInt64, 9223372036854775807.0, json.Number("9223372036854775807")} {
+		for _, in := range []any{[]any{0, 1, 2}, "abc", []any{}, "", "日本語", []any{[]any{1}}} {
+			out = append(out, c03Huge{X: run.TV{V: x}, In: run.TV{V: in}})
+		}
+	}
+	return out
+}
